@@ -22,9 +22,13 @@ func init() {
 		ID:    "C01",
 		Level: "exploration",
 		Rule: "SMTP sessions of 1-5 transactions generated from (seed, case index) over naming{local,full,domain} x " +
-			"default-store{t,f} x backend{mem,file} (all 12 combinations occur) with sampled accept/store lists and recipient limit; " +
+			"default-store{t,f} x backend{mem,file} (all 12 combinations occur) with generated store/discard/accept/reject lists (empty, all domains, " +
+			"a domain on both the store and the discard list, on the reject and the store list, mixed-case entries; written to INBUCKET_SMTP_* and loaded by config.Process(); " +
+			"expected storage = the documented rule on the lists as written) and recipient limit; " +
 			"recipients built from parts (plain, +ext, mixed case, specials, quoted, source routes, IP literals, invalid, duplicates, " +
-			"aliases of one mailbox); endings DATA/RSET/EHLO/second MAIL/QUIT/abrupt close/oversized DATA refused under a small size limit; plus rounds of 2-6 concurrent sessions delivering to 1-3 shared mailboxes. Oracle: full store snapshot delta after " +
+			"aliases of one mailbox); endings DATA/RSET/EHLO/second MAIL/QUIT/abrupt close/oversized DATA refused under a small size limit; plus rounds of 2-6 concurrent sessions delivering to 1-3 shared mailboxes; plus multi-recipient transactions while the mailbox of one or two recipients (any position in the list) cannot be written " +
+			"(file store: index.gob unreadable in six ways, a regular file where a hash directory must be created, index.gob.tmp blocked; memory store with maxkb: only the short-named recipient's copy fits), " +
+			"where a reply of 250 is judged strictly (every accepted storable recipient holds exactly one copy) and the copies left behind by a refused transaction are counted, not judged. Oracle: full store snapshot delta after " +
 			"every transaction vs reference model over observed replies. A case is non-trivial and distinct by (config combo, sorted " +
 			"multiset of recipient classes with accept/store outcome, ending) when >=1 message was stored or >=1 accepted recipient was deliberately not stored.",
 		Assumptions: []string{
@@ -32,9 +36,21 @@ func init() {
 			"which RCPTs are accepted is observed, not predicted (C05 decides that)",
 			"for k byte-identical duplicate RCPTs any stored count in 1..k is accepted",
 			"no extension is installed (redirects are C17)",
+			"policy lists are loaded through config.Process() from the process environment, one configuration after another in one child process",
+			"fault stream: storage faults are injected by tampering with the file store's directory between transactions (never during one), or arise from the memory store's size limit; under such a fault only the implication from a 250 reply is judged - what a refused (451) transaction leaves in the other recipients' mailboxes is outside the statement's quantifier and only counted",
+			"fault stream, memory store: exactly one recipient's copy fits the size limit (checked by observation, else the round is not judged), so eviction by the size limit - which C01 does not quantify over - cannot explain a missing copy",
 		},
 		MinObs: func(tier string) map[string]int64 {
-			m := map[string]int64{"messages_stored": 100, "accepted_not_stored": 10, "transactions_aborted": 50}
+			m := map[string]int64{"messages_stored": 100, "accepted_not_stored": 10, "transactions_aborted": 50,
+				// policy corners (after C01-7): accepted recipients of a domain on both lists, verified stored
+				// (default-store false) and verified not stored (default-store true)
+				"policy_overlap_rcpt_stored": 100, "policy_overlap_rcpt_not_stored": 100,
+				"policy_sessions_with_empty_list": 50, "policy_sessions_with_mixed_case_entry": 100,
+				// storage faults (after C01-8)
+				"fault_rounds": 150, "fault_partial_rounds": 100, "fault_victim_before_healthy_rcpt": 50}
+			for _, k := range faultKinds {
+				m["fault_kind:"+k] = 10
+			}
 			for _, n := range namings {
 				for _, st := range []string{"true", "false"} {
 					for _, b := range []string{"mem", "file"} {
@@ -67,6 +83,11 @@ func run(c *fw.Ctx) {
 	})
 	c.Cases("concurrent", c.N(240, 6000), func(i int, r *fw.Rand) {
 		runConcurrent(c, i, r)
+	})
+	// Multi-recipient transactions with an unwritable mailbox (fault.go, added after seeded
+	// change C01-8).
+	c.Cases("fault", c.N(300, 6000), func(i int, r *fw.Rand) {
+		runFault(c, i, r)
 	})
 }
 
@@ -242,12 +263,11 @@ func runSession(c *fw.Ctx, idx int, r *fw.Rand) {
 	case "domain":
 		conf.MailboxNaming = config.DomainNaming
 	}
-	conf.SMTP.DefaultStore = defStore
-	conf.SMTP.StoreDomains = []string{"store.test", "alpha.test", "[192.168.1.5]"}
-	conf.SMTP.DiscardDomains = []string{"discard.test", "gamma.example"}
-	conf.SMTP.DefaultAccept = r.Chance(3, 4)
-	conf.SMTP.AcceptDomains = []string{"accept.test", "alpha.test", "store.test", "discard.test", "beta.test", "[192.168.1.5]"}
-	conf.SMTP.RejectDomains = []string{"reject.test"}
+	// Store/discard and accept/reject lists: generated per session from a random stream of their
+	// own and loaded through config.Process() (policy.go, added after seeded change C01-7).
+	pr := c.Rand("session-policy", idx)
+	pol := genPolicy(pr, defStore, r.Chance(3, 4))
+	pol.load(pr, conf)
 	conf.SMTP.MaxRecipients = []int{2, 5, 50}[r.Intn(3)]
 	if r.Chance(1, 3) {
 		conf.SMTP.MaxMessageBytes = 3000 // makes the "oversize" ending a refused transaction
@@ -258,6 +278,16 @@ func runSession(c *fw.Ctx, idx int, r *fw.Rand) {
 	}
 	combo := fmt.Sprintf("%s/%v/%s", naming, defStore, backend)
 	c.Count("combo:"+combo, 1)
+	c.Count("policy_sessions:"+pol.shape, 1)
+	if pol.emptyList {
+		c.Count("policy_sessions_with_empty_list", 1)
+	}
+	if pol.mixedCase {
+		c.Count("policy_sessions_with_mixed_case_entry", 1)
+	}
+	if pol.overlap {
+		c.Count("policy_sessions_with_store_discard_overlap", 1)
+	}
 	env, err := sut.NewEnv(conf, backend)
 	if err != nil {
 		panic(err)
@@ -277,6 +307,7 @@ func runSession(c *fw.Ctx, idx int, r *fw.Rand) {
 			return
 		}
 		c.Violation(key, what, map[string]any{"config": combo, "accept_default": conf.SMTP.DefaultAccept,
+			"store_domains": pol.store, "discard_domains": pol.discard, "accept_domains": pol.accept, "reject_domains": pol.reject,
 			"max_rcpt": conf.SMTP.MaxRecipients, "trace": ss.Trace})
 	}
 	if _, err := ss.Greet(); err != nil {
@@ -298,7 +329,7 @@ func runSession(c *fw.Ctx, idx int, r *fw.Rand) {
 		if ss.Ended() || ss.Q.ServerClosed() {
 			break
 		}
-		if !runTx(c, r, env, ss, naming, combo, model, known, &sig, fail) {
+		if !runTx(c, r, env, pol, ss, naming, combo, model, known, &sig, fail) {
 			break
 		}
 	}
@@ -316,7 +347,7 @@ func head(t []sut.Exchange, n int) []sut.Exchange {
 }
 
 // runTx plays one transaction; returns false when the session should stop (violation or end).
-func runTx(c *fw.Ctx, r *fw.Rand, env *sut.Env, ss *sut.SMTPSession, naming, combo string,
+func runTx(c *fw.Ctx, r *fw.Rand, env *sut.Env, pol *policy, ss *sut.SMTPSession, naming, combo string,
 	model map[string][]sut.MsgSnap, known map[string]bool, sig *string, fail func(key, what string)) bool {
 
 	sender := gen.SimpleAddr(r, []string{"sender.test", "origin.example"})
@@ -334,6 +365,7 @@ func runTx(c *fw.Ctx, r *fw.Rand, env *sut.Env, ss *sut.SMTPSession, naming, com
 	var accepted []gen.Addr
 	var classes []string
 	var pool []gen.Addr
+	rejectListed := 0 // accepted although the domain is on the reject list (DefaultAccept=false: the list is inert)
 	for k := 0; k < nr; k++ {
 		var a gen.Addr
 		switch {
@@ -368,7 +400,12 @@ func runTx(c *fw.Ctx, r *fw.Rand, env *sut.Env, ss *sut.SMTPSession, naming, com
 			accepted = append(accepted, a)
 			out = "accepted"
 		}
-		classes = append(classes, a.Class+":"+out)
+		// The store/discard corner of the domain (S, D, SD = on both lists, -) is part of the
+		// recipient's class: a case is distinct by it.
+		classes = append(classes, a.Class+":"+out+":"+pol.corner(a.Domain))
+		if out == "accepted" && contains(pol.reject, a.Domain) {
+			rejectListed++
+		}
 	}
 	sort.Strings(classes)
 
@@ -469,13 +506,20 @@ func runTx(c *fw.Ctx, r *fw.Rand, env *sut.Env, ss *sut.SMTPSession, naming, com
 	wants := map[string]*want{}
 	var exp expMsg
 	nonStored := 0
+	overlapStored, overlapDiscarded := 0, 0 // accepted recipients whose domain is on both lists
 	if expectStore {
 		exp = expected(msg, sender, accepted)
 		seen := map[string]bool{}
 		for _, a := range accepted {
-			if !storeEligible(env, a) {
+			if !pol.eligible(a.Domain) {
 				nonStored++
+				if pol.corner(a.Domain) == "SD" {
+					overlapDiscarded++
+				}
 				continue
+			}
+			if pol.corner(a.Domain) == "SD" {
+				overlapStored++
 			}
 			name := ""
 			if a.Simple {
@@ -575,6 +619,10 @@ func runTx(c *fw.Ctx, r *fw.Rand, env *sut.Env, ss *sut.SMTPSession, naming, com
 		model[n] = l
 	}
 	c.Count("accepted_not_stored", int64(nonStored))
+	// Only counted here, after the delta comparison above has passed for this transaction.
+	c.Count("policy_overlap_rcpt_stored", int64(overlapStored))
+	c.Count("policy_overlap_rcpt_not_stored", int64(overlapDiscarded))
+	c.Count("policy_reject_listed_rcpt_accepted", int64(rejectListed))
 	c.Count("transactions", 1)
 	if (expectStore && len(wants) > 0) || nonStored > 0 {
 		*sig += combo + "|" + strings.Join(classes, ",") + "|" + endName + ";"
@@ -597,23 +645,6 @@ func brief(m sut.MsgSnap) map[string]any {
 func sameMsg(a, b sut.MsgSnap) bool {
 	return a.ID == b.ID && a.From == b.From && strings.Join(a.To, ",") == strings.Join(b.To, ",") &&
 		a.Subject == b.Subject && a.Size == b.Size && a.Seen == b.Seen && a.Source == b.Source && a.Date.Equal(b.Date)
-}
-
-// storeEligible is the documented store rule (doc/config.md), evaluated independently.
-func storeEligible(env *sut.Env, a gen.Addr) bool {
-	d := strings.ToLower(a.Domain)
-	in := func(l []string) bool {
-		for _, x := range l {
-			if strings.ToLower(x) == d {
-				return true
-			}
-		}
-		return false
-	}
-	if env.Conf.SMTP.DefaultStore {
-		return !in(env.Conf.SMTP.DiscardDomains)
-	}
-	return in(env.Conf.SMTP.StoreDomains)
 }
 
 func genMessage(r *fw.Rand) txMsg {
